@@ -40,7 +40,15 @@ let read path : hist =
           | _ -> ())
        else
          (match w with
-          | ["winddown"] -> ended := true; raise Exit
+          | ["winddown"] ->
+              ended := true;
+              (* of the wind-down only the final count of calls still pending is kept (as a line of its own kind) *)
+              (try while true do
+                   match split (input_line ic) with
+                   | [t; "D"; "end"; n] -> lines := { t = ios t; src = "D"; w = ["end"; n] } :: !lines
+                   | _ -> ()
+                 done with End_of_file -> ());
+              raise Exit
           | ["hang"] -> hung := true; raise Exit
           | ["eof"] -> raise Exit
           | t :: src :: rest when (match int_of_string_opt t with Some _ -> true | None -> false) ->
@@ -357,6 +365,13 @@ let c15 h : string list =
           if !shut && ios pend - !parked > 0 then
             (* callers parked at the hook by the harness are not counted *)
             hits := (Printf.sprintf "c15:blocked-after-shutdown gen=%d t=%d %d Enqueue calls are still blocked after the shutdown event" h.gen ln.t (ios pend - !parked)) :: !hits
+      | _ -> ()) h.lines;
+  (* the harness ends every scenario by releasing the callers it parked, stopping the Batcher and letting every timer run
+     out: an Enqueue call that has not returned by then never will *)
+  let was_started = List.exists (fun ln -> ln.w = ["startret"; "1"]) h.lines in
+  List.iter (fun ln -> match ln.src, ln.w with
+      | "D", ["end"; n] when ios n > 0 && was_started ->
+          hits := (Printf.sprintf "c15:never-returned gen=%d t=%d %s Enqueue calls have not returned although the Batcher, which had been started, was stopped and every timer has run out" h.gen ln.t n) :: !hits
       | _ -> ()) h.lines;
   if h.hung then hits := (Printf.sprintf "c15:hang gen=%d the scenario deadlocked with Enqueue calls pending (real-time watchdog): a blocked Enqueue must return when the Batcher shuts down" h.gen) :: !hits;
   Array.iter (fun c ->
@@ -746,14 +761,24 @@ let c08 h : string list =
   let inbuf = ref 0 and inprog = ref [] in
   let shut = ref false in
   let cyc_t = ref (-1) and cyc_cap = ref (-1) and cyc_batches = ref 0 and cyc_buf = ref 0 and cyc_busy = ref 0 in
+  let cyc_n = ref 0 and cyc_cost = ref 0 in
+  let calls08 = calls_of h in
+  let info08 = obj_info h calls08 in
+  let shifty = Array.exists (fun c -> c.cost <> c.costd) calls08 in
   let flush_ms = eff h.flush (100 * ms) / ms in
   let close () =
     if !cyc_t >= 0 then begin
+      (* work conservation, v2 without a slot limit: a cycle that leaves operations in the buffer has used up its
+         allowance of ceil(Capacity() x FlushInterval / 1000) *)
+      (if h.gen = 2 && h.limiter && h.maxconc = 0 && not shifty && !cyc_cap >= 0 then
+         let allowance = (!cyc_cap * flush_ms + 999) / 1000 in
+         if !cyc_buf - !cyc_n > 0 && !cyc_cost < allowance then
+           hits := (Printf.sprintf "c08:cycle-stopped-early t=%d the cycle released cost %d of an allowance of %d (Capacity() %d, FlushInterval %d ms) and left %d operations in the buffer" !cyc_t !cyc_cost allowance !cyc_cap flush_ms (!cyc_buf - !cyc_n)) :: !hits);
       let full = h.maxconc > 0 && !cyc_busy >= h.maxconc in
       if !cyc_buf > 0 && !cyc_batches = 0 && not full && flush_ms >= 1 && (not h.limiter || !cyc_cap >= 1) then
         hits := (Printf.sprintf "c08:no-progress t=%d a cycle over %d buffered operations released nothing (Capacity() %d, %d of %d slots busy)" !cyc_t !cyc_buf !cyc_cap !cyc_busy h.maxconc) :: !hits
     end;
-    cyc_t := -1; cyc_batches := 0 in
+    cyc_t := -1; cyc_batches := 0; cyc_n := 0; cyc_cost := 0 in
   let busy t = List.length (List.filter (fun (bt, w, ret) -> (match !ret with Some r -> r >= t | None -> true) && bt + timeout_of h w >= t) !inprog) in
   let begin_cycle t = close (); cyc_t := t; cyc_cap := -1; cyc_buf := !inbuf; cyc_busy := busy t in
   List.iter (fun ln ->
@@ -765,6 +790,8 @@ let c08 h : string list =
       | "L", "batch" :: rest ->
           let (w, ids, _) = ids_of rest in
           inbuf := !inbuf - List.length ids; incr cyc_batches;
+          cyc_n := !cyc_n + List.length ids;
+          List.iter (fun id -> match Hashtbl.find_opt info08 id with Some c -> cyc_cost := !cyc_cost + c.cost | None -> ()) ids;
           inprog := (ln.t, w, ref None) :: !inprog
       | _, "cbret" :: rest ->
           let (w, _, _) = ids_of rest in
@@ -833,9 +860,13 @@ let c10 h =
 
 let monitor (pid : string) (h : hist) : string list =
   match pid with
-  | "C01" -> c01 h @ c08 h | "C02" -> c02 h | "C03" -> c03 h | "C05" -> c05 h
+  | "C01" -> c01 h @ c08 h | "C02" -> c02 h | "C03" -> c03 h | "C05" -> c05 h @ c01 h
   | "C08" -> c08 h @ c08_ticks h @ c08_flush h @ c01 h @ List.filter (fun s -> String.length s > 22 && String.sub s 0 22 = "c15:blocked-with-space") (c15 h)
-  | "C10" -> c10 h @ c08 h | "C11" -> c11 h | "C12" -> c12 h | "C13" -> c13 h @ c01 h | "C14" -> c14 h
+  | "C10" -> c10 h @ c08 h | "C11" -> c11 h | "C12" -> c12 h | "C13" ->
+      (* "processing continues" after the resume: the three tickers keep their grid (cycles, capacity requests, audits) *)
+      let pre p s = String.length s >= String.length p && String.sub s 0 (String.length p) = p in
+      c13 h @ c01 h @ c08_ticks h
+      @ List.filter (fun s -> pre "c19:tick" s) (c19 h) @ List.filter (fun s -> pre "c12:tick" s) (c12 h) | "C14" -> c14 h
   | "C15" -> c15 h
   | "C16" -> c16 h @ List.filter (fun s -> String.length s > 26 && String.sub s 0 26 = "c15:blocked-after-shutdown") (c15 h)
   | "C19" -> c19 h
